@@ -27,8 +27,20 @@ def gfunc():
     return None
 
 
+def rsetter(obj, state):
+    """kind "glob", v = 2: a state_setter following the pickle protocol (its return value is to be ignored)"""
+    obj.__dict__.update(state)
+
+
+GLOBS = {}
+
+
 def r_has_state(v):
-    return v in (1, 3)
+    return v in (1, 3, 5)
+
+
+def r_has_setter(v):
+    return v == 5
 
 
 def r_has_list(v):
@@ -63,7 +75,13 @@ class RObj:
         state = self.attrs() if r_has_state(v) else None
         li = iter(list(self._items)) if r_has_list(v) else None
         di = iter(list(self._map.items())) if r_has_dict(v) else None
+        if r_has_setter(v):
+            return (RObj, (), state, li, di, rsetter)
         return (RObj, (), state, li, di)
+
+
+GLOBS.update({0: RObj, 1: gfunc, 2: rsetter})
+GLOB_OF = {id(v): k for k, v in GLOBS.items()}
 
 
 BOX_STYLES = ('float', 'str', 'complex', 'bytes', 'np.float64', 'np.int64', 'bigint', 'mixed')
@@ -146,7 +164,7 @@ def build(g, style='float', same=False):
         elif k == 'dtype':
             objs[i] = np.dtype('float64')
         elif k == 'glob':
-            objs[i] = RObj if nd['v'] == 0 else gfunc
+            objs[i] = GLOBS[nd['v']]
         elif k == 'list':
             objs[i] = []
         elif k == 'set':
@@ -200,6 +218,8 @@ def build(g, style='float', same=False):
                 for key, c in zip(s['ks'], s['ch']):
                     setattr(objs[i], KEYNAMES[key - 1], objs[c])
                 pos = 3
+            if r_has_setter(v):
+                pos += 1
             items = ch[pos:]
             if r_has_list(v):
                 for c in items:
@@ -282,7 +302,7 @@ class Matcher:
         if k == 'dtype':
             return m if isinstance(obj, np.dtype) and obj == np.dtype('float64') else self.fail('node %d: expected dtype' % n)
         if k == 'glob':
-            exp = RObj if nd['v'] == 0 else gfunc
+            exp = GLOBS[nd['v']]
             return m if obj is exp else self.fail('node %d: expected global %r, got %r' % (n, exp, obj))
         if k in ('box', 'arr'):
             ref = self.leaf_of(nd, n)
@@ -339,6 +359,8 @@ class Matcher:
                 pos = 3
             elif attrs:
                 return self.fail('node %d: unexpected attributes %r' % (n, sorted(attrs)))
+            if r_has_setter(v):
+                pos += 1        # the setter is not observable on the object
             items = ch[pos:]
             if r_has_dict(v):
                 if obj._items or 2 * len(obj._map) != len(items):
@@ -401,8 +423,8 @@ def describe(root, with_objs=False):
             key = ('int', o)
         elif isinstance(o, np.dtype):
             key = ('dtype',)
-        elif o is RObj or o is gfunc:
-            key = ('glob', 0 if o is RObj else 1)
+        elif id(o) in GLOB_OF:
+            key = ('glob', GLOB_OF[id(o)])
         else:
             key = id(o)
         if key in ids:
@@ -418,7 +440,7 @@ def describe(root, with_objs=False):
             nd['k'], nd['v'] = 'int', o
         elif isinstance(o, np.dtype):
             nd['k'] = 'dtype'
-        elif o is RObj or o is gfunc:
+        elif id(o) in GLOB_OF:
             nd['k'], nd['v'] = 'glob', key[1]
         elif type(o) is list:
             nd['k'] = 'list'
@@ -460,6 +482,8 @@ def describe(root, with_objs=False):
                 keep.append(None)
                 ch.append(len(nodes))
                 s['ch'] = [visit(x) for x in attrs.values()]
+            if r_has_setter(nd['v']):
+                ch.append(visit(rsetter))
             if has_d:
                 ks = [visit(x) for x in o._map.keys()]
                 ch += ks + [visit(x) for x in o._map.values()]
